@@ -16,22 +16,22 @@ import (
 
 // ReplayFile is a self-contained, exactly repeatable description of one execution.
 type ReplayFile struct {
-	V         int        `json:"v"`
-	Property  string     `json:"property"`
-	Profile   string     `json:"profile"`
-	Engine    string     `json:"engine"`
-	Seed      uint64     `json:"seed"`
-	Worker    int        `json:"worker"`
-	Run       int        `json:"run"`
-	RunSeed   uint64     `json:"runSeed"`
-	Plan      *Plan      `json:"plan,omitempty"`
-	Sched     []uint32   `json:"sched"`
+	V         int             `json:"v"`
+	Property  string          `json:"property"`
+	Profile   string          `json:"profile"`
+	Engine    string          `json:"engine"`
+	Seed      uint64          `json:"seed"`
+	Worker    int             `json:"worker"`
+	Run       int             `json:"run"`
+	RunSeed   uint64          `json:"runSeed"`
+	Plan      *Plan           `json:"plan,omitempty"`
+	Sched     []uint32        `json:"sched"`
 	Extra     json.RawMessage `json:"extra,omitempty"` // engine-specific case (engines B and C)
-	Violation *Violation `json:"violation,omitempty"`
-	Digest    string     `json:"digest"`
-	Steps     int        `json:"steps"`
-	Minimised bool       `json:"minimised"`
-	Expanded  []string   `json:"expanded,omitempty"` // human-readable schedule / history excerpt; never executed
+	Violation *Violation      `json:"violation,omitempty"`
+	Digest    string          `json:"digest"`
+	Steps     int             `json:"steps"`
+	Minimised bool            `json:"minimised"`
+	Expanded  []string        `json:"expanded,omitempty"` // human-readable schedule / history excerpt; never executed
 }
 
 // RunOutcome is what one run of any engine reports to the worker loop.
@@ -52,29 +52,29 @@ type RunOutcome struct {
 }
 
 type WorkerSummary struct {
-	Profile     string              `json:"profile"`
-	Seed        uint64              `json:"seed"`
-	Worker      int                 `json:"worker"`
-	Runs        int                 `json:"runs"`
-	Relevant    int                 `json:"relevant"`
-	Digests     []string            `json:"digests"` // digests of relevant runs
-	Violations  []FoundViolation    `json:"violations"`
-	OtherProps  map[string]int      `json:"otherProps"`
-	Steps       int64               `json:"steps"`
-	Decisions   int64               `json:"decisions"`
-	Preempts    int64               `json:"preempts"`
-	SimMs       int64               `json:"simMs"`
-	Faults      map[string]int      `json:"faults"`
-	Probes      map[string]int      `json:"probes"`
-	Truncated   int                 `json:"truncated"`
-	Leaks       int                 `json:"leaks"`
-	SitesHit    []int               `json:"sitesHit"`
-	SitesParked []int               `json:"sitesParked"`
-	NumSites    int                 `json:"numSites"`
-	StateSigs   []string            `json:"stateSigs"`
-	Samples     []any               `json:"samples"`
-	WallS       float64             `json:"wallS"`
-	Strategies  map[string]int      `json:"strategies"`
+	Profile     string           `json:"profile"`
+	Seed        uint64           `json:"seed"`
+	Worker      int              `json:"worker"`
+	Runs        int              `json:"runs"`
+	Relevant    int              `json:"relevant"`
+	Digests     []string         `json:"digests"` // digests of relevant runs
+	Violations  []FoundViolation `json:"violations"`
+	OtherProps  map[string]int   `json:"otherProps"`
+	Steps       int64            `json:"steps"`
+	Decisions   int64            `json:"decisions"`
+	Preempts    int64            `json:"preempts"`
+	SimMs       int64            `json:"simMs"`
+	Faults      map[string]int   `json:"faults"`
+	Probes      map[string]int   `json:"probes"`
+	Truncated   int              `json:"truncated"`
+	Leaks       int              `json:"leaks"`
+	SitesHit    []int            `json:"sitesHit"`
+	SitesParked []int            `json:"sitesParked"`
+	NumSites    int              `json:"numSites"`
+	StateSigs   []string         `json:"stateSigs"`
+	Samples     []any            `json:"samples"`
+	WallS       float64          `json:"wallS"`
+	Strategies  map[string]int   `json:"strategies"`
 }
 
 type FoundViolation struct {
@@ -224,127 +224,139 @@ func WorkerMain(t *testing.T) {
 	sigs := map[string]bool{}
 	var hit, parked []bool
 	run0 := envInt("VERIF_RUN0", 0)
-	for run := run0; run < run0+maxRuns; run++ {
-		if time.Since(start) > time.Duration(budgetMs)*time.Millisecond {
-			break
-		}
-		rs := SeedFor(seed, name, worker, run)
-		o := runOne(t, p, rs, nil)
-		if dd := os.Getenv("VERIF_DUMP_DIR"); dd != "" && lastResult != nil {
-			f, _ := os.Create(filepath.Join(dd, fmt.Sprintf("run%d.txt", run)))
-			for _, e := range lastResult.H.Evs {
-				b, _ := json.Marshal(e)
-				fmt.Fprintln(f, string(b))
+	mainLoop := func() {
+		for run := run0; run < run0+maxRuns; run++ {
+			if time.Since(start) > time.Duration(budgetMs)*time.Millisecond {
+				break
 			}
-			f.Close()
-		}
-		if dl := os.Getenv("VERIF_DIGEST_LOG"); dl != "" {
-			f, _ := os.OpenFile(dl, os.O_APPEND|os.O_CREATE|os.O_WRONLY, 0644)
-			fmt.Fprintf(f, "%s\n", o.Digest)
-			f.Close()
-		}
-		sum.Runs++
-		sum.Steps += int64(o.Stats.Steps)
-		sum.Decisions += int64(o.Stats.Decisions)
-		sum.Preempts += int64(o.Stats.Preempts)
-		sum.SimMs += o.Stats.SimMs
-		for k, v := range o.Stats.Faults {
-			sum.Faults[k] += v
-		}
-		if o.Stats.Truncated {
-			sum.Truncated++
-		}
-		if o.Leak {
-			sum.Leaks++
-		}
-		for _, pr := range o.Probes {
-			sum.Probes[pr]++
-		}
-		if o.Relevant {
-			sum.Relevant++
-			digests[o.Digest] = true
-		}
-		for _, s := range o.StateSigs {
-			sigs[s] = true
-		}
-		for _, v := range o.Other {
-			sum.OtherProps[v.Property+"/"+v.Class]++
-		}
-		if o.Replay != nil && o.Replay.Plan != nil {
-			sum.Strategies[fmt.Sprintf("strategy%d/arm%d", o.Replay.Plan.Cfg.Strategy, o.Replay.Plan.Cfg.ArmMode)]++
-		}
-		if len(o.SiteHits) > 0 {
-			if hit == nil {
-				hit = make([]bool, len(o.SiteHits))
-				parked = make([]bool, len(o.SiteHits))
+			rs := SeedFor(seed, name, worker, run)
+			o := runOne(t, p, rs, nil)
+			if dd := os.Getenv("VERIF_DUMP_DIR"); dd != "" && lastResult != nil {
+				f, _ := os.Create(filepath.Join(dd, fmt.Sprintf("run%d.txt", run)))
+				for _, e := range lastResult.H.Evs {
+					b, _ := json.Marshal(e)
+					fmt.Fprintln(f, string(b))
+				}
+				f.Close()
 			}
-			for i := range o.SiteHits {
-				if i < len(hit) {
-					if o.SiteHits[i] > 0 {
-						hit[i] = true
-					}
-					if o.SitePark[i] > 0 {
-						parked[i] = true
+			if dl := os.Getenv("VERIF_DIGEST_LOG"); dl != "" {
+				f, _ := os.OpenFile(dl, os.O_APPEND|os.O_CREATE|os.O_WRONLY, 0644)
+				fmt.Fprintf(f, "%s\n", o.Digest)
+				f.Close()
+			}
+			sum.Runs++
+			sum.Steps += int64(o.Stats.Steps)
+			sum.Decisions += int64(o.Stats.Decisions)
+			sum.Preempts += int64(o.Stats.Preempts)
+			sum.SimMs += o.Stats.SimMs
+			for k, v := range o.Stats.Faults {
+				sum.Faults[k] += v
+			}
+			if o.Stats.Truncated {
+				sum.Truncated++
+			}
+			if o.Leak {
+				sum.Leaks++
+			}
+			for _, pr := range o.Probes {
+				sum.Probes[pr]++
+			}
+			if o.Relevant {
+				sum.Relevant++
+				digests[o.Digest] = true
+			}
+			for _, s := range o.StateSigs {
+				sigs[s] = true
+			}
+			for _, v := range o.Other {
+				sum.OtherProps[v.Property+"/"+v.Class]++
+			}
+			if o.Replay != nil && o.Replay.Plan != nil {
+				sum.Strategies[fmt.Sprintf("strategy%d/arm%d", o.Replay.Plan.Cfg.Strategy, o.Replay.Plan.Cfg.ArmMode)]++
+			}
+			if len(o.SiteHits) > 0 {
+				if hit == nil {
+					hit = make([]bool, len(o.SiteHits))
+					parked = make([]bool, len(o.SiteHits))
+				}
+				for i := range o.SiteHits {
+					if i < len(hit) {
+						if o.SiteHits[i] > 0 {
+							hit[i] = true
+						}
+						if o.SitePark[i] > 0 {
+							parked[i] = true
+						}
 					}
 				}
 			}
-		}
-		if len(sum.Samples) < 2 && o.Relevant && o.Sample != nil {
-			sum.Samples = append(sum.Samples, o.Sample)
-		}
-		for _, v := range o.Violations {
-			fp := v.Fingerprint()
-			if fv := found[fp]; fv != nil {
-				fv.Count++
-				continue
+			if len(sum.Samples) < 2 && o.Relevant && o.Sample != nil {
+				sum.Samples = append(sum.Samples, o.Sample)
 			}
-			if len(found) >= maxViol {
-				continue
+			for _, v := range o.Violations {
+				fp := v.Fingerprint()
+				if fv := found[fp]; fv != nil {
+					fv.Count++
+					continue
+				}
+				if len(found) >= maxViol {
+					continue
+				}
+				rf := o.Replay
+				if r2 := o.ReplayFor[fp]; r2 != nil {
+					rf = r2
+				}
+				rf.Seed, rf.Worker, rf.Run = seed, worker, run
+				vv := v
+				rf.Violation = &vv
+				path := filepath.Join(outDir, fmt.Sprintf("viol-%s-w%d-r%d-%d.json", name, worker, run, len(found)))
+				cp := *rf
+				_ = writeJSON(path, &cp)
+				found[fp] = &FoundViolation{Fingerprint: fp, V: v, Replay: path, Count: 1}
 			}
-			rf := o.Replay
-			if r2 := o.ReplayFor[fp]; r2 != nil {
-				rf = r2
+		}
+	}
+	flush := func() {
+		sum.Digests, sum.StateSigs, sum.Violations, sum.SitesHit, sum.SitesParked = nil, nil, nil, nil, nil
+		for d := range digests {
+			sum.Digests = append(sum.Digests, d)
+		}
+		sort.Strings(sum.Digests)
+		for s := range sigs {
+			sum.StateSigs = append(sum.StateSigs, s)
+		}
+		sort.Strings(sum.StateSigs)
+		var fps []string
+		for fp := range found {
+			fps = append(fps, fp)
+		}
+		sort.Strings(fps)
+		for _, fp := range fps {
+			sum.Violations = append(sum.Violations, *found[fp])
+		}
+		for i := range hit {
+			if hit[i] {
+				sum.SitesHit = append(sum.SitesHit, i)
 			}
-			rf.Seed, rf.Worker, rf.Run = seed, worker, run
-			vv := v
-			rf.Violation = &vv
-			path := filepath.Join(outDir, fmt.Sprintf("viol-%s-w%d-r%d-%d.json", name, worker, run, len(found)))
-			cp := *rf
-			_ = writeJSON(path, &cp)
-			found[fp] = &FoundViolation{Fingerprint: fp, V: v, Replay: path, Count: 1}
+			if parked[i] {
+				sum.SitesParked = append(sum.SitesParked, i)
+			}
+		}
+		sum.NumSites = verifsim.NumSites()
+		sum.WallS = time.Since(start).Seconds()
+		if err := writeJSON(filepath.Join(outDir, fmt.Sprintf("summary-%s-w%d.json", name, worker)), sum); err != nil {
+			fmt.Println("TOOLING cannot write summary:", err)
+			os.Exit(2)
 		}
 	}
-	for d := range digests {
-		sum.Digests = append(sum.Digests, d)
-	}
-	sort.Strings(sum.Digests)
-	for s := range sigs {
-		sum.StateSigs = append(sum.StateSigs, s)
-	}
-	sort.Strings(sum.StateSigs)
-	var fps []string
-	for fp := range found {
-		fps = append(fps, fp)
-	}
-	sort.Strings(fps)
-	for _, fp := range fps {
-		sum.Violations = append(sum.Violations, *found[fp])
-	}
-	for i := range hit {
-		if hit[i] {
-			sum.SitesHit = append(sum.SitesHit, i)
-		}
-		if parked[i] {
-			sum.SitesParked = append(sum.SitesParked, i)
-		}
-	}
-	sum.NumSites = verifsim.NumSites()
-	sum.WallS = time.Since(start).Seconds()
-	if err := writeJSON(filepath.Join(outDir, fmt.Sprintf("summary-%s-w%d.json", name, worker)), sum); err != nil {
-		fmt.Println("TOOLING cannot write summary:", err)
-		os.Exit(2)
-	}
+	workerFlush = flush
+	mainLoop()
+	flush()
 }
+
+// workerFlush writes the worker's summary as it stands (used by the real-time hang watchdog of the
+// free-running engine before it gives up on the process).
+var workerFlush func()
 
 func loadReplay(path string) (*ReplayFile, error) {
 	b, err := os.ReadFile(path)
